@@ -69,6 +69,7 @@ func main() {
 	child := fl.Bool("child", false, "internal: run a shard in this process")
 	from := fl.Int("from", 0, "internal: first history index of the shard")
 	to := fl.Int("to", -1, "internal: one past the last history index of the shard")
+	allCuts := fl.Bool("allcuts", false, "cut mode: every byte offset of small tapes instead of the boundary neighbourhood")
 	mode := fl.String("mode", "plain", "history shape: plain | ro (populate, reopen read-only, mixed calls) | reopen (reopen/rebuild in the middle)")
 	work := fl.String("work", "", "scratch directory (default: a fresh temp dir, removed afterwards)")
 	knownPath := fl.String("known", "/verif/known-findings.jsonl", "known findings file (read only)")
@@ -88,7 +89,7 @@ func main() {
 	case "fs":
 		o := fsOpts{seed: *seed, n: *n, length: *length, workers: *workers, driver: *driver, wild: *wild,
 			oracles: splitList(*oracles), rs: ints(*rss), scratch: scratch, replay: *replay, known: loadKnown(*knownPath), mode: *mode,
-			from: *from, to: *to}
+			from: *from, to: *to, thoroughCuts: *allCuts}
 		if *child {
 			res = runFS(o)
 		} else {
@@ -151,6 +152,7 @@ type fsOpts struct {
 	mode    string
 	from    int
 	to      int
+	thoroughCuts bool
 }
 
 func has(xs []string, x string) bool {
@@ -260,12 +262,16 @@ func runFS(o fsOpts) *result {
 				i := 0
 				initCall := h.Call{Method: "initialize", Args: []string{h.EncName("/"), "511"}}
 				pivot := o.length / 2
+				var cutPts []int64
+				if o.mode == "cut" {
+					pivot = o.length
+				}
 				next := func() (h.Call, bool) {
 					i++
 					if i == 1 {
 						return initCall, true
 					}
-					if i > o.length {
+					if i > o.length && o.mode != "cut" {
 						return h.Call{}, false
 					}
 					switch o.mode {
@@ -288,6 +294,18 @@ func runFS(o fsOpts) *result {
 						if i > pivot {
 							gw.SyncShadow(g)
 							return gw.Next(), true
+						}
+					case "cut":
+						// after a clean history: rebuilds of the tape cut at many byte offsets
+						if i > pivot {
+							if cutPts == nil {
+								cutPts = cutPoints(filepath.Join(dir, "drive.tar"), j, o.thoroughCuts)
+							}
+							k := i - pivot - 1
+							if k >= len(cutPts) {
+								return h.Call{}, false
+							}
+							return h.Call{Method: "@rebuildcut", Args: []string{fmt.Sprint(cutPts[k])}}, true
 						}
 					case "reopen":
 						// a fresh read-write process in the middle: index kept, or dropped and rebuilt
@@ -516,4 +534,46 @@ func mergeResult(t, r *result) {
 			t.Samples = append(t.Samples, s)
 		}
 	}
+}
+
+// cutPoints chooses the byte offsets at which the tape is cut: around every item boundary and
+// header/content boundary (quick), or every byte of the tail plus a stride over the rest.
+func cutPoints(drive string, j int, all bool) []int64 {
+	items, blocks, _ := h.ScanTape(drive, 0)
+	size := blocks * 512
+	set := map[int64]bool{}
+	add := func(c int64) {
+		if c >= 0 && c <= size {
+			set[c] = true
+		}
+	}
+	for _, it := range items {
+		s := it.Block * 512
+		for _, d := range []int64{0, 1, 100, 511, 512, 513} {
+			add(s + d)
+		}
+		if !it.Trailer && it.HB > 0 {
+			hc := s + it.HB*512
+			for _, d := range []int64{-1, 0, 1, 255} {
+				add(hc + d)
+			}
+			add(hc + it.Stored - 1)
+			add(hc + it.Stored)
+			add(hc + it.Stored + 1)
+			add(hc + it.Stored/2)
+		}
+	}
+	if all {
+		for c := int64(0); c <= size; c++ {
+			if c > size-6144 || c%37 == int64(j%37) {
+				add(c)
+			}
+		}
+	}
+	out := []int64{}
+	for c := range set {
+		out = append(out, c)
+	}
+	sort.Slice(out, func(a, b int) bool { return out[a] < out[b] })
+	return out
 }
